@@ -7,17 +7,19 @@ skip = "--skip-validate" in sys.argv
 dirs = sorted(glob.glob("/verif/seeded/C*-?"))
 if args:
     dirs = [d for d in dirs if os.path.basename(d) in args]
+# changes that break the named property only through a route that belongs to another listed property (see DESIGN.md 9.4)
+OTHER_CHECK = {"C07-g": "C14"}
 out = {}
 for d in dirs:
     sid = os.path.basename(d)
-    cid = sid.split("-")[0]
+    cid = OTHER_CHECK.get(sid, sid.split("-")[0])
     cmd = [sys.executable, "/verif/tools/seeded.py", d, "--checks", cid] + (["--skip-validate"] if skip else [])
     t0 = time.time()
     p = subprocess.run(cmd, stdout=subprocess.PIPE, stderr=subprocess.STDOUT, text=True)
     try:
         r = json.loads(p.stdout[p.stdout.index("{"):])
         c = r["checks"][cid]
-        out[sid] = {"validated": r["validated"], "exit": c["exit"], "caught": c["violation"], "wall_s": c["wall_s"], "message": c["message"][:300]}
+        out[sid] = {"check": cid, "validated": r["validated"], "exit": c["exit"], "caught": c["violation"], "wall_s": c["wall_s"], "message": c["message"][:300]}
         v = r["validated"]
         ok = v is None or (v["demo_passes_on_original"] and v["suite_passes_with_change"] and v["demo_fails_with_change"])
         print(sid, "CAUGHT" if c["violation"] else "MISSED exit=%s" % c["exit"], "valid" if ok else "INVALID %s" % v, "%.0fs" % (time.time() - t0), flush=True)
